@@ -27,6 +27,18 @@ CLAIMED = {
    text="Real uncompact() on lists of <=3 symbolic cells (resolutions -1..29, target <= min+3): length equals the independent 12/5/4 product sum; each slice is distinct, at resolution t, maps back to its source cell through cell_to_parent and is complete against a symbolic descendant d with the decoded-field oracle; a cell finer than t raises on every path; the argument list is untouched and the result is a fresh list.",
    ref="DESIGN.md §4 C10",
    note="Lists of at most 3 cells, expansion <= 3 levels / 960 ids per cell; the function handles cells independently with one running offset, longer lists are outside the bound."),
+ "C18": dict(
+   text="Assume-guarantee decomposition, every part running the real code: (D) the digit transducers of s_to_anchor/ij_to_s are mutual inverses for ALL 4^h indices at levels h (quick: 1,2,3,4,8,16,28; thorough: every 1..28) and all 6 orientations, by bit-vector queries with exact cut points per level plus a monolithic cross-check at small h; (G) one inductive level step of the geometric digit extraction (real ij_to_quaternary/quaternary_to_kj/kj_to_ij) over the whole open unit triangle in linear real arithmetic; (B) for every orientation, level, final (k,flips) and every real anchor offset the real post-transform -> get_pentagon_vertices -> get_center -> face_to_ij -> pre-transform puts the centre in the cell's own triangle for every perturbation |e|<=1e-3; (F) filling; (R) the unstubbed real round trip for h<=3 (4) with symbolic perturbation.",
+   ref="DESIGN.md §4 C18",
+   note="Real arithmetic stands in for IEEE in (G)/(B)/(R) with an explicit symbolic perturbation budget 1e-3 lattice units (actual rounding ~2e-6). The composition of (D),(G),(B) into the end-to-end bijection is an argument in DESIGN.md; (R) exercises the actual composition only for small levels. The 'first k digits identify the level-k ancestor' clause is C07's drift obligation."),
+ "C19": dict(
+   text="Real u64_to_hex/hex_to_u64 bodies executed on a symbolic 64-bit n (forks over the 16 digit counts) with hex/int/format replaced by contract models over bounded symbolic strings: round trip == n, output alphabet [0-9a-f], no prefix/sign/padding, equal strings <=> equal ids; symbolic strings of every length 1..16 over [0-9a-fA-F] parse to the positional value, case-insensitively, and re-render canonically. The models are validated differentially against the real builtins on every run.",
+   ref="DESIGN.md §4 C19",
+   note="The builtins hex/int/format are the environment: modelled per the language reference (trusted, validated on pinned values). Strings <= 20 chars; f-string/%-formatting refactors are reported inconclusive."),
+ "C20": dict(
+   text="get_num_cells/get_num_children with BOTH resolutions symbolic in -1..30: closed forms, num_cells(a)*num_children(a,r)==num_cells(r), 12/5/4 per-level product; len(cell_to_children) and len(uncompact) equal get_num_children for a symbolic cell at every resolution (fan-out <= 3); world expansion is duplicate-free, complete and counted by get_num_cells (r<=3); cell_area strictly decreasing, positive, and cell_area(r)*n within 1 ulp of the sphere area for symbolic r, bit-precise IEEE-754 (z3 FP).",
+   ref="DESIGN.md §4 C20",
+   note="Fan-out of the length clause bounded to 3 levels; expansion of the world cell enumerated for r<=3 and otherwise tied to the count through C06 (children distinct+complete). int->float conversion and division assumed IEEE RNE (CPython)."),
 }
 NA = {}
 for p in props:
